@@ -930,6 +930,10 @@ class Stmt:
 
         # Void return
         if ret_val is None:
+            if self.ctx.ctor_epilogue is not None:
+                # `return` inside `__init__`: finish the deployment
+                self.ctx.ctor_epilogue()
+                return
             self.builder.stop()
             return
 
